@@ -300,6 +300,21 @@ def C05(rep, prog, tier):
     enum.loop(rep, ex)
 
 
+def C16(rep, prog, tier):
+    rep.explanation = ("C16: the System Z ranking object: ZRANK.recursion (both copies of the rank recursion, start, layer items, "
+                       "decision table), WORLD.literals, ZRANK.cache, ZRANK.pure, FACT.shape (both builders), partition mode, "
+                       "ZRANK.refuse; PART.* of `consistency`. Equality with the operator's answers is not decided (two conforming "
+                       "implementations of one definition)")
+    ex = Explorer(prog, rep)
+    preocf.world_literals(rep, ex)
+    for cls in (preocf.ZP, preocf.PO):
+        preocf.zrank_recursion(rep, ex, cls)
+    preocf.rank_cache(rep, ex, preocf.ZP, "z_part2ocf")
+    preocf.zrank_init(rep, ex)
+    preocf.fact_builder_sibling(rep, ex)
+    part.check_all(rep, ex, only=("inference.consistency_sat.consistency",))
+
+
 def C18(rep, prog, tier):
     rep.explanation = ("C18: RANK.min (accumulator update table, scope of the satisfaction test), ACCEPT.decision, MARG.bits, "
                        "COND.filter, TPO.order, WORLD.literals on the ranking-function operations")
@@ -323,4 +338,4 @@ def C06(rep, prog, tier):
     wrappers.shortcut_dominance(rep, ex)
 
 
-CHECKS = {"C01": C01, "C02": C02, "C03": C03, "C04": C04, "C05": C05, "C06": C06, "C07": C07, "C09": C09, "C11": C11, "C12": C12, "C13": C13, "C14": C14, "C18": C18, "C15": C15}
+CHECKS = {"C01": C01, "C02": C02, "C03": C03, "C04": C04, "C05": C05, "C06": C06, "C07": C07, "C09": C09, "C11": C11, "C12": C12, "C13": C13, "C14": C14, "C16": C16, "C18": C18, "C15": C15}
